@@ -109,6 +109,54 @@ func c10Run(f []string) string {
 		default:
 		}
 		return fmt.Sprintf("ok errs=%s val=%s", errsStr(errs), HexS(want))
+	case "parf":
+		// parf <w> <file> <template> <elems> <keys>: one compiled expression that calls funcs-file functions,
+		// evaluated from w goroutines, EACH WITH ITS OWN match context (elements suffixed by the goroutine
+		// number, as extractor workers see different lines); every result must equal the sequential one
+		var w int
+		fmt.Sscanf(f[1], "%d", &w)
+		kb, _ := loadFuncs(string(UnHex(f[2])), true)
+		compiled, errs := kb.Compile(string(UnHex(f[3])))
+		mk := func(g int) *expressions.KeyBuilderContextArray {
+			c := mkContext(f[4], f[5])
+			if g > 0 {
+				for i := range c.Elements {
+					c.Elements[i] += fmt.Sprintf("#%d", g)
+				}
+			}
+			return c
+		}
+		want := make([]string, w+1)
+		for g := 0; g <= w; g++ {
+			want[g] = compiled.BuildKey(mk(g))
+		}
+		var wg sync.WaitGroup
+		bad := make(chan string, w+1)
+		for g := 1; g <= w; g++ {
+			wg.Add(1)
+			go func(g int) {
+				defer wg.Done()
+				defer func() {
+					if e := recover(); e != nil {
+						bad <- fmt.Sprint("panic ", e)
+					}
+				}()
+				ctx := mk(g)
+				for k := 0; k < 20000; k++ {
+					if got := compiled.BuildKey(ctx); got != want[g] {
+						bad <- fmt.Sprintf("DIFF worker=%d concurrent=%s sequential=%s", g, HexS(got), HexS(want[g]))
+						return
+					}
+				}
+			}(g)
+		}
+		wg.Wait()
+		select {
+		case b := <-bad:
+			return b
+		default:
+		}
+		return fmt.Sprintf("ok errs=%s val=%s", errsStr(errs), HexS(want[0]))
 	case "live", "livef":
 		// live <template> / livef <file> <template>: a value defined to vary must still consult the
 		// context after optimisation (also when nested in a sub-expression or a user function)
@@ -329,6 +377,11 @@ func c10Gen(r *Rand, tier string) []string {
 		// hand-inlined body for bodies without binders and without nested user calls
 		if body, ok := used[nm]; ok && !strings.Contains(body, "@map") && !strings.Contains(body, "{f") {
 			inl := body
+			// simultaneous substitution: first mark every {k}, then expand the marks (an argument such as
+			// {0} must not be substituted again)
+			for k := 3; k >= 0; k-- {
+				inl = strings.ReplaceAll(inl, fmt.Sprintf("{%d}", k), fmt.Sprintf("\x03%d\x03", k))
+			}
 			for k := 3; k >= 0; k-- {
 				rep := "\x01\x02"
 				if k < len(args) {
@@ -336,19 +389,36 @@ func c10Gen(r *Rand, tier string) []string {
 					if strings.HasPrefix(rep, "\"") { // a quoted constant is its content
 						rep = strings.Trim(rep, "\"")
 					}
-					rep = "\x01" + rep + "\x02"
+					if !strings.HasPrefix(rep, "{") {
+						rep = "\x01" + rep + "\x02"
+					}
 				}
-				inl = strings.ReplaceAll(inl, fmt.Sprintf("{%d}", k), rep)
+				inl = strings.ReplaceAll(inl, fmt.Sprintf("\x03%d\x03", k), rep)
 			}
-			// constants substituted into argument position must stay one argument: quote them
-			inl = strings.ReplaceAll(inl, "\x01{", "{")
-			inl = strings.ReplaceAll(inl, "}\x02", "}")
 			inl = quoteMarked(inl)
 			out = append(out, fmt.Sprintf("inline %s %s %s %s %s", HexS(file.String()), HexS(normTemplate(call)), HexS(normTemplate(inl)), HexListS(el), HexListS(ks)))
+		}
+		if i%6 == 0 {
+			if _, ok := used[nm]; ok {
+				out = append(out, fmt.Sprintf("parf %d %s %s %s %s", Pick(r, []int{2, 4, 8}), HexS(file.String()), HexS(normTemplate(call)), HexListS(el), HexListS(ks)))
+			}
 		}
 		if i%8 == 0 {
 			out = append(out, fmt.Sprintf("par %d %s %s %s", Pick(r, []int{2, 4, 8}), HexS(normTemplate(g.expr(3, true))), HexListS(el), HexListS(ks)))
 		}
+	}
+	// user functions whose body reads several arguments / named keys, called with dynamic arguments from many
+	// goroutines with different matches (what extractor workers do)
+	np := 10
+	if tier == "thorough" {
+		np = 120
+	}
+	for i := 0; i < np; i++ {
+		body := Pick(r, []string{"{0}-{1}", "{sumi {0} {1}}", "{0}@{src}/{1}", "{if {0} {1} {0}}", "{0}{0}{1}{1}", "{coalesce {1} {0}}:{0}"})
+		file := "pair " + body + "\nwrap {pair {1} {0}}|{pair {0} {0}}\n"
+		call := Pick(r, []string{"{pair {0} {1}}", "{wrap {0} {1}}", "{pair {1} {0}}{pair {0} {1}}", "{pair {sumi {0} 1} {1}}"})
+		el := []string{fmt.Sprint(r.Intn(90) + 1), fmt.Sprint(r.Intn(90) + 1)}
+		out = append(out, fmt.Sprintf("parf %d %s %s %s %s", Pick(r, []int{4, 8, 16}), HexS(file), HexS(call), HexListS(el), HexListS([]string{"src", "f.log"})))
 	}
 	return out
 }
